@@ -983,6 +983,11 @@ where
                 }
             };
 
+            // The buffer must be empty when formatting starts: if formatting a
+            // previous event unwound (e.g. a field's `Debug` impl panicked and the
+            // panic was caught), the `clear` below never ran for that event.
+            buf.clear();
+
             let ctx = self.make_ctx(ctx, event);
             if self
                 .fmt_event
